@@ -45,6 +45,10 @@ const ORD: [&str; 5] = ["Int", "Float", "Decimal", "DateTime", "Duration"];
 
 impl Gen<'_> {
     fn lit(&mut self, t: &str) -> Expr {
+        // two literals in five are random values rather than pool boundaries
+        if self.rng.chance(2, 5) {
+            return Expr::value(crate::pools::random_value(self.rng, t));
+        }
         let idx = self.pool.of(t);
         Expr::value(self.pool.all[idx[self.rng.below(idx.len())]].clone())
     }
